@@ -294,23 +294,37 @@ def run(chk):
     drive("stress", stress, 2, 3000)
 
     # ---- 4. hangs / panics recorded by the driver
+    per_key = collections.Counter()
+
+    def report(key, what, obj):
+        """at most three replay files per failing class; the rest is counted"""
+        per_key[key] += 1
+        if per_key[key] <= 3:
+            chk.violation(key, what, obj)
+
     ran = sum(e.get("ran", 0) for e in events if e.get("e") == "summary")
     for e in events:
         k = e.get("e")
         c = by_id.get(e.get("case"), {})
         if k == "hang":
             what = e.get("what", "")
-            cls = "getstate" if what.startswith("GetState") else "section-end" if what.startswith("end of") else \
-                  "stress-standstill" if what.startswith("free-running") else "access"
-            chk.violation("C07:hang:%s:fam=%s" % (cls, c.get("fam")),
-                          "sharer %s: %s did not return after %d ms (lock timeout %d ms) and five further timers of the "
-                          "timeout's length, while no other goroutine of the case took a step: the section neither "
-                          "obtained access nor aborted" % (e.get("a"), what, e.get("waited_ms", 0), e.get("timeout_ms", 0)),
-                          {"input": c, "event": e})
+            tail = ("did not return after %d ms (lock timeout %d ms) and five further timers of the timeout's length, while "
+                    "no goroutine of the case took a step" % (e.get("waited_ms", 0), e.get("timeout_ms", 0)))
+            if what.startswith("GetState"):
+                cls, msg = "getstate", "%s %s: a lock outlived the section that took it" % (what, tail)
+            elif what.startswith("end of"):
+                cls, msg = "section-end", "sharer %s: %s %s" % (e.get("a"), what, tail)
+            elif what.startswith("free-running"):
+                cls, msg = "stress-standstill", ("free-running sharers stopped taking any step before reaching their quota (waited %d ms, "
+                                                 "lock timeout %d ms, then five idle rounds): deadlock" % (e.get("waited_ms", 0), e.get("timeout_ms", 0)))
+            else:
+                cls, msg = "access", ("sharer %s: %s %s: the section neither obtained access nor aborted"
+                                      % (e.get("a"), what, tail))
+            report("C07:hang:%s:fam=%s" % (cls, c.get("fam")), msg, {"input": c, "event": e})
         elif k == "panic":
-            chk.violation("C07:panic:fam=%s" % c.get("fam"),
-                          "the code under test panicked / failed in %s: %s" % (e.get("what"), e.get("msg")),
-                          {"input": c, "event": e})
+            report("C07:panic:fam=%s" % c.get("fam"),
+                   "the code under test panicked / failed in %s: %s" % (e.get("what"), e.get("msg")),
+                   {"input": c, "event": e})
         elif k in ("watchdog", "setup"):
             chk.inconclusive.append("c07drv %s in case %s: %s" % (k, e.get("case"), e.get("what") or e.get("msg")))
     deviations = [e for e in events if e.get("e") == "deviation"]
@@ -343,8 +357,10 @@ def run(chk):
             what = "%s in case %s: %s" % (inv, h.get("id"), r["text"])
             if inv == "SoloProgress":
                 what += " -- a probe section attempted while every other sharer was between sections was refused access on every attempt (a lock outlived the section that took it)"
-        chk.violation("C07:%s:mode=%s:fam=%s:kinds=%s" % (inv, h.get("mode"), h.get("fam"), ",".join(sorted(set(h.get("kinds", []))))),
-                      what, {"input": c, "history": seg, "line_in_seg": r["line_in_seg"], "tlc": r["text"], "item": item})
+        report("C07:%s:mode=%s:fam=%s" % (inv, h.get("mode"), h.get("fam")),
+               what, {"input": c, "history": seg, "line_in_seg": r["line_in_seg"], "tlc": r["text"], "item": item})
+    if per_key:
+        chk.notes["violating_cases_per_class"] = dict(per_key)
 
     # ---- 6. M-level conformance of the gated recordings (drift only)
     tsegs = V.split_cases(trace)
